@@ -45,6 +45,10 @@ def add_data_vars(w: dict, rng: random.Random, *, rich: bool = True) -> None:
     add("eta", "face", (["t"] + g) if rng.random() < .5 else (g[:1] + ["t"] + g[1:]), "f4")
     if any(e["name"] == "index" for e in extras):
         add("withindex", "face", ["index"] + g, "f8")
+    gg = list(g) if rng.random() < .5 else list(reversed(g))
+    add("plotv", "face", gg, "f8", 0.2)
+    add("pu", "face", list(g), "f8")
+    add("pv", "face", list(g), "f4", 0.1)
     if rich:
         for kind in kinds:
             if kind == "face":
@@ -189,9 +193,123 @@ def run_event(w, ds, conv, e: dict) -> dict:
             e["obs"] = {"err": type(ex).__name__, "indexes": []}
         if a == "ExtractDF":
             e["expectcols"] = ["lat", "lon", "pid"]
+    elif a == "Export":
+        e["obs"] = outcome(lambda: export_features(w, ds, e["fmt"], e["path"]))
+    elif a == "PolyCollection":
+        e["obs"] = outcome(lambda: poly_collection(w, ds, conv, e))
+    elif a == "Quiver":
+        e["obs"] = outcome(lambda: quiver(w, ds, conv, e))
     else:
         raise ValueError(a)
     return e
+
+
+def ring_q(coords) -> list:
+    pts = [[f2q(x), f2q(y)] for x, y in coords]
+    if len(pts) > 1 and pts[0] == pts[-1]:
+        pts = pts[:-1]
+    return pts
+
+
+def export_features(w, ds, fmt: str, path: str) -> dict:
+    """Write with emsarray, read back with an independent reader; features in file order."""
+    import json
+    import os
+    from emsarray.operations import geometry
+    os.makedirs(os.path.dirname(path), exist_ok=True)
+    feats = []
+    if fmt == "geojson":
+        geometry.write_geojson(ds, path)
+        data = json.load(open(path))
+        for f in data["features"]:
+            props = f.get("properties") or {}
+            feats.append({"coords": ring_q(f["geometry"]["coordinates"][0]),
+                          "linear": as_int(props.get("linear_index")),
+                          "native": native_index(w["conv"], props.get("index")) if props.get("index") is not None else [BADINT]})
+    elif fmt == "shapefile":
+        import shapefile
+        geometry.write_shapefile(ds, path)
+        with shapefile.Reader(path) as r:
+            for sr in r.iterShapeRecords():
+                rec = list(sr.record)          # by field position: name, linear_index, index
+                try:
+                    native = native_index(w["conv"], json.loads(rec[2])) if rec[2] not in (None, "") else [BADINT]
+                except Exception:
+                    native = [BADINT]
+                pts = sr.shape.points
+                parts = list(sr.shape.parts) + [len(pts)]
+                feats.append({"coords": ring_q(pts[parts[0]:parts[1]]), "linear": as_int(rec[1]), "native": native})
+    else:
+        if fmt == "wkt":
+            geometry.write_wkt(ds, path)
+            geom = shapely.from_wkt(open(path).read())
+        else:
+            geometry.write_wkb(ds, path)
+            geom = shapely.from_wkb(open(path, "rb").read())
+        for g in geom.geoms:
+            feats.append({"coords": ring_q(g.exterior.coords), "linear": -2, "native": [-2]})
+    for f in os.listdir(os.path.dirname(path)):
+        os.unlink(os.path.join(os.path.dirname(path), f))
+    return {"features": feats}
+
+
+def poly_collection(w, ds, conv, e) -> dict:
+    import matplotlib
+    matplotlib.use("Agg")
+    kwargs = {}
+    given_transform = None
+    if e.get("clim"):
+        kwargs["clim"] = tuple(float(v) for v in e["clim"])
+    if e.get("array"):
+        kwargs["array"] = numpy.array(e["array"], dtype=float)
+    if e.get("transform"):
+        import cartopy.crs
+        given_transform = cartopy.crs.PlateCarree(central_longitude=10)
+        kwargs["transform"] = given_transform
+    data = None
+    if e.get("var"):
+        data = e["var"] if e.get("mode", "name") == "name" else ds[e["var"]].copy()
+        if e.get("mode") == "anon":
+            data = xarray.DataArray(ds[e["var"]].values, dims=ds[e["var"]].dims)
+    coll = conv.make_poly_collection(data, **kwargs) if data is not None else conv.make_poly_collection(**kwargs)
+    paths = [ring_q(p.vertices) for p in coll.get_paths()]
+    arr = coll.get_array()
+    clim = coll.get_clim()
+    tr = coll._transform       # the raw object handed to the artist (resolving it needs a GeoAxes)
+    which = "given" if (given_transform is not None and tr is given_transform) else (
+        "default" if tr is conv.data_crs else "other")
+    def tagv(v):
+        if v is None:
+            return BADINT
+        v = float(v)
+        return MISSING if v != v else (int(v) if v == int(v) else BADINT)
+    return {"paths": paths, "hasarray": arr is not None,
+            "array": [] if arr is None else [tagv(v) for v in numpy.ma.filled(numpy.ma.asarray(arr, dtype=float), numpy.nan).tolist()],
+            "clim": [tagv(clim[0]), tagv(clim[1])], "transform": which}
+
+
+def quiver(w, ds, conv, e) -> dict:
+    import matplotlib
+    matplotlib.use("Agg")
+    from matplotlib.figure import Figure
+    fig = Figure()
+    axes = fig.add_subplot(projection=conv.data_crs)
+    if e.get("u"):
+        u = e["u"] if e.get("mode", "name") == "name" else ds[e["u"]]
+        v = e["v"] if e.get("mode", "name") == "name" else ds[e["v"]]
+        qv = conv.make_quiver(axes, u, v)
+    else:
+        qv = conv.make_quiver(axes)
+    def tagv(x):
+        x = float(x)
+        return MISSING if x != x else (int(x) if x == int(x) else BADINT)
+    # matplotlib stores invalid components as a joint mask (Umask) and fills the arrays with 1
+    U = numpy.asarray(qv.U, dtype=float).reshape(-1)
+    V = numpy.asarray(qv.V, dtype=float).reshape(-1)
+    mask = numpy.broadcast_to(numpy.ma.getmaskarray(numpy.ma.masked_array(U, mask=qv.Umask)), U.shape).reshape(-1)
+    return {"xy": [[f2q(x), f2q(y)] for x, y in numpy.asarray(qv.XY, dtype=float)],
+            "u": [tagv(x) for x in U.tolist()], "v": [tagv(x) for x in V.tolist()],
+            "mask": [bool(m) for m in mask.tolist()]}
 
 
 def execute_cells(case: dict) -> dict:
